@@ -97,3 +97,20 @@ Proof.
   assert (Ec : v_cmd (view_of_model cfg w e cmd um) = cmd) by (rewrite view_model_eq; reflexivity).
   rewrite Ec in *. destruct cmd; try reflexivity; try discriminate. exact H4.
 Qed.
+
+Lemma frame_both : forall c f f',
+  (forall n, memb n (children f (c_layers c)) = memb n (children f' (c_layers c))) ->
+  (forall n, legal_name n = true -> cfg_file c f n = cfg_file c f' n) ->
+  (forall n, lm_get (read_layer_files c f) n = lm_get (read_layer_files c f') n)
+  /\ C02.forest_ok c f = C02.forest_ok c f'.
+Proof. intros c f f' H1 H2. split; [now apply frame_lookup|now apply frame_forest_ok]. Qed.
+
+Lemma pretend_fs_unchanged_view : forall cfg w e cmd um,
+  cfg_ok cfg = true -> names_distinct cfg w = true -> e_pretend e = true ->
+  wo_fs (v_after (view_of_model cfg w e cmd um)) = wo_fs w.
+Proof.
+  intros cfg w e cmd um Hcfg Hnd Hp. rewrite view_model_eq. cbv zeta. cbn [v_after wo_fs].
+  destruct (cfg_ok_spec cfg Hcfg) as (Lc & bsr & wsr & usr & Ec & bpr & gpr & _ & _ & HB & HW & HU & _).
+  exact (pretend_same cfg bsr wsr usr HB HW HU e um (start w) (LayersP.nodup_paths_NoDup _ Hnd) cmd Hp).
+Qed.
+
